@@ -39,9 +39,11 @@ def full_candset(L, R, lkey='id', rkey='id'):
 
 def run_ep(ep, L, R, n_jobs=1, tok=None, t=None, op=None, ae=True, am=False, lo=None, ro=None,
            lp='l_', rp='r_', score=True, cand=None, lkey='id', rkey='id', lattr='s', rattr='s',
-           meas=None, raw=False):
+           meas=None, raw=False, fresh=True):
     """Call one entry point.  `raw=True` calls without the crash-to-violation wrapper."""
     call = (lambda f, *a, **k: f(*a, **k)) if raw else lib
+    if fresh:
+        lo, ro = fresh_names(lo), fresh_names(ro)
     parts = ep.split(':')
     kind = parts[0]
     if kind == 'join':
@@ -81,6 +83,13 @@ def run_ep(ep, L, R, n_jobs=1, tok=None, t=None, op=None, ae=True, am=False, lo=
                     Jaccard().get_raw_score, DEFAULT_T['JACCARD'] if t is None else t, op or '>=', am, lo, ro,
                     lp, rp, score, n_jobs, False)
     raise ValueError(ep)
+
+
+def fresh_names(names):
+    """Equal but distinct string objects (names computed at run time, e.g. read from a file)."""
+    if names is None:
+        return None
+    return [''.join(list(x)) if isinstance(x, str) and len(x) > 1 else x for x in names]
 
 
 def multiset(out, drop_id=True):
